@@ -47,6 +47,8 @@ def tables_for(rnd, d, q, e, n):
                 # str.splitlines() breaks at, NUL-free control characters, non-ASCII
                 "\ufeff", "\ufeffx", "x\ufeff", "\u2028", "\x85x", "\x0b", "x\x0c", "\x1c", "\xa0", "é\u20ac"]
     tables = [[[a]] for a in alphabet]
+    # a cell longer than the csv module's default field size limit (131072 characters)
+    tables.append([["y" * 131073, "b"], ["c", "d"]])
     tables += [[[a, b]] for a in alphabet[:9] for b in alphabet[:6]]
     for _ in range(n):
         ncols = rnd.randint(1, 4)
@@ -144,10 +146,13 @@ def run(ctx):
             out = io.StringIO(newline="")
             with validio.Writer(cid, out) as w:
                 w.write_rows(t2)
-            back = list(validio.rows(cid, io.StringIO(out.getvalue(), newline="")))
-            ctx.count(key=("validio", d, q, e, repr(t2)), branch="validio")
+            try:
+                back = list(validio.rows(cid, io.StringIO(out.getvalue(), newline="")))
+            except Exception as error:  # noqa
+                back = core.classify_exception(error)
+            ctx.count(key=("validio", d, q, e, repr(t2)[:300]), branch="validio")
             if back != t2:
-                ctx.violation("C12:round-trip:validio", "cutplace.Writer/rows: %r -> %r -> %r" % (t2, out.getvalue(), back), {"table": t2})
+                ctx.violation("C12:round-trip:validio", "cutplace.Writer/rows: %.200r -> %.200r -> %.200r" % (t2, out.getvalue(), back), {"table": [[c_[:50] for c_ in r_] for r_ in t2]})
 
 
 def replay(ctx, case):
